@@ -519,7 +519,7 @@ def history(draw, tier, mode):
     fam = draw(ham_desc(Lmin=1, Lmax=4 if tier == 'quick' else 5, dense_cap=256))
     L = fam['L']; qd = ham_qd(fam)
     # all states of a history share the leading bond charge (needed for sums); it is non-zero in a third of the histories
-    q0 = draw(st.sampled_from([0, 0, 1, -2, 0, 3]))
+    q0 = draw(st.sampled_from([0, 0, 1, -2, 0, 3, 2**53 + 1, -(2**60)]))     # incl. leading charges beyond 2^53 (a legal U(1) relabelling; int64 sums are exact, float64 ones are not)
     md = mps_desc(Lmin=L, Lmax=L, qd=qd, q0=q0, Dmax=3, styles=['complex', 'complex', 'real'], disjoint_prob=0, junk=False, dense_cap=10**9)
     od0 = mpo_desc(Lmin=L, Lmax=L, qd=qd, Dmax=2, styles=['complex', 'real'], disjoint_prob=0, junk=False, dense_cap=10**9, zero_shift=True)
     # operators: zero total shift, bond charges optionally shifted uniformly (non-zero leading = trailing charge)
